@@ -3148,7 +3148,8 @@ fn strip_nulls_object(header: u32, value: &[u8]) -> Result<ObjectBuilder<'_>, Er
 /// Possible types are object, array, string, number, boolean, and null.
 pub fn type_of(value: &[u8]) -> Result<&'static str, Error> {
     if !is_jsonb(value) {
-        return match value.first() {
+        // look at the first byte of the value itself, as the parser does: leading white space is not part of it
+        return match crate::parser::first_value_byte(value) {
             Some(v) => match v {
                 b'n' => Ok(TYPE_NULL),
                 b't' | b'f' => Ok(TYPE_BOOLEAN),
